@@ -31,6 +31,15 @@ def getArr (j : Json) (k : String) : Except String (Array Rat) := do
   let l ← fldQs j k
   pure l.toArray
 
+/-- the Robin coefficient array: numbers `v` and optional flags `vinf` (non-zero = `±inf`) -/
+def coefFn (vshape : List Nat) (ncomp : Nat) (v : Array Rat) (vinf : Option (Array Rat))
+    (vi : List Int) : Coef Rat :=
+  match vinf with
+  | some fl => if valFn vshape ncomp fl vi != 0 then .inf else .fin (valFn vshape ncomp v vi)
+  | none => .fin (valFn vshape ncomp v vi)
+
+/-- condition of one face; a `mixed` condition carries the grid spacing `dx` of its axis (needed
+for the test of the non-finite branch) and optionally `vinf` -/
 def parseCond (j : Json) (ncomp : Nat) : Except String (Cond Rat) := do
   let kind ← fldS j "kind"
   let vshape ← (do match fldOpt j "vshape" with | some v => getL getN v | none => pure [])
@@ -40,8 +49,14 @@ def parseCond (j : Json) (ncomp : Nat) : Except String (Cond Rat) := do
   match kind with
   | "dirichlet" => do pure (.dirichlet (← get "v"))
   | "neumann" => do pure (.neumann (← get "v"))
-  | "mixed" => do pure (.mixed (← get "v") (← get "c"))
-  | "mixedInf" => pure .mixedInf
+  | "mixed" => do
+    let v ← getArr j "v"
+    let vinf ← (match fldOpt j "vinf" with | some _ => do pure (some (← getArr j "vinf")) | none => pure none)
+    match fldOpt j "dx" with
+    | some dxj => do
+      let dx ← getQ dxj
+      pure (Cond.robin dx (coefFn vshape ncomp v vinf) (← get "c"))
+    | none => do pure (.mixed (fun _ => false) (valFn vshape ncomp v) (← get "c"))
   | "curvature" => do pure (.curvature (← get "v"))
   | "periodic" => pure (.periodic false)
   | "antiperiodic" => pure (.periodic true)
@@ -49,6 +64,39 @@ def parseCond (j : Json) (ncomp : Nat) : Except String (Cond Rat) := do
   | "exprDerivative" => do pure (.exprDerivative (← get "v"))
   | "exprMixed" => do pure (.exprMixed (← get "v") (← get "c"))
   | _ => throw s!"unknown cond {kind}"
+
+/-- where does a `mixed` condition have a finite coefficient with `2 + dx*gamma = 0`?
+(as a function of the value index) -/
+def condSingular (j : Json) (ncomp : Nat) : Except String (List Int → Bool) := do
+  let kind ← fldS j "kind"
+  if kind != "mixed" then return (fun _ => false)
+  match fldOpt j "dx" with
+  | none => return (fun _ => false)
+  | some dxj => do
+    let dx ← getQ dxj
+    let vshape ← (do match fldOpt j "vshape" with | some v => getL getN v | none => pure [])
+    let v ← getArr j "v"
+    let vinf ← (match fldOpt j "vinf" with | some _ => do pure (some (← getArr j "vinf")) | none => pure none)
+    return (fun vi => (coefFn vshape ncomp v vinf vi).singular dx)
+
+def parseFaces (j : Json) (shape : List Nat) (rank : Nat) :
+    Except String (List (Face × Rat × Cond Rat) × List (Face × (List Int → Bool))) := do
+  let facesJ ← (do getL pure (← fld j "faces"))
+  let mut sing : List (Face × (List Int → Bool)) := []
+  let mut out : List (Face × Rat × Cond Rat) := []
+  for fj in facesJ do
+    let axis ← fldN fj "axis"
+    let upper ← fldB fj "upper"
+    let normal ← fldB fj "normal"
+    let dx ← fldQ fj "dx"
+    let ncomp := if normal then rank - 1 else rank
+    let cj ← fld fj "cond"
+    let c ← parseCond cj ncomp
+    let f : Face := { shape := shape, rank := rank, axis := axis,
+                      side := if upper then .upper else .lower, normal := normal }
+    sing := sing ++ [(f, ← condSingular cj ncomp)]
+    out := out ++ [(f, dx, c)]
+  pure (out, sing)
 
 /-- {"shape":[..], "rank":r, "dim":d, "data":[..] (full array, shape (d,)*r ++ (N+2..)),
     "faces":[{"axis","upper","normal","dx","cond":{...}}]} -> new full array -/
@@ -59,33 +107,62 @@ def ghost (j : Json) : Except String Json := do
   let data ← getArr j "data"
   let fshape := List.replicate rank dim ++ shape.map (· + 2)
   let a0 : List Int → Rat := arrFn fshape data
-  let facesJ ← (do getL pure (← fld j "faces"))
-  let faces ← facesJ.mapM (fun fj => do
-    let axis ← fldN fj "axis"
-    let upper ← fldB fj "upper"
-    let normal ← fldB fj "normal"
-    let dx ← fldQ fj "dx"
-    let ncomp := if normal then rank - 1 else rank
-    let c ← parseCond (← fld fj "cond") ncomp
-    let f : Face := { shape := shape, rank := rank, axis := axis,
-                      side := if upper then .upper else .lower, normal := normal }
-    pure (f, dx, c))
+  let (faces, _) ← parseFaces j shape rank
   let a1 := setGhostAll faces a0
   pure (jQs ((allIdx fshape).map a1))
 
-/-- virtual point data of one condition: {"kind", "dx", "v", "c"} -> [const, factor(, factor2)] -/
+/-- as `ghost`, and additionally which entries (flat indices) are the result of a division by
+zero in an expression condition (`div0`) and which are written by a `mixed` condition at a
+singular finite coefficient (`sing`): {"a": [...], "div0": [k..], "sing": [k..]} -/
+def ghost2 (j : Json) : Except String Json := do
+  let shape ← fldNs j "shape"
+  let rank ← fldN j "rank"
+  let dim ← fldN j "dim"
+  let data ← getArr j "data"
+  let fshape := List.replicate rank dim ++ shape.map (· + 2)
+  let a0 : List Int → Rat := arrFn fshape data
+  let (faces, sing) ← parseFaces j shape rank
+  let a1 := setGhostAll faces a0
+  let all := allIdx fshape
+  let div0 := (all.zipIdx).filterMap (fun (p : List Int × Nat) =>
+    if faces.any (fun fc => fc.1.writes p.1 && divByZero fc.1 fc.2.1 fc.2.2 p.1) then some p.2 else none)
+  let sng := (all.zipIdx).filterMap (fun (p : List Int × Nat) =>
+    if sing.any (fun fs => fs.1.writes p.1 && fs.2 (fs.1.valueIdx p.1)) then some p.2 else none)
+  pure (Json.mkObj [("a", jQs (all.map a1)), ("div0", toJson div0), ("sing", toJson sng)])
+
+/-- virtual point data of one condition for every element of its value array:
+{"kind", "dx", "N", "upper", "v":[..], "c":[..], "vinf":[..]} ->
+{"index": i (, "index2": i2), "rows": [[const, factor(, factor2)], ..]} (indices 0-based in valid cells) -/
 def vpdata (j : Json) : Except String Json := do
   let kind ← fldS j "kind"
   let dx ← fldQ j "dx"
-  let v ← (match fldOpt j "v" with | some x => getQ x | none => pure 0)
-  let c ← (match fldOpt j "c" with | some x => getQ x | none => pure 0)
+  let N ← fldN j "N"
+  let upper ← fldB j "upper"
+  let side : Side := if upper then .upper else .lower
+  let v ← (match fldOpt j "v" with | some _ => getArr j "v" | none => pure #[])
+  let c ← (match fldOpt j "c" with | some _ => getArr j "c" | none => pure #[])
+  let vinf ← (match fldOpt j "vinf" with | some _ => do pure (some (← getArr j "vinf")) | none => pure none)
+  let near := toJson (nearIdx N side - 1)
+  let rows (f : Nat → List Rat) : Json := Json.arr ((List.range v.size).map (fun k => jQs (f k))).toArray
   match kind with
-  | "dirichlet" => let r := vpDirichlet v; pure (jQs [r.1, r.2])
-  | "neumann" => let r := vpNeumann dx v; pure (jQs [r.1, r.2])
-  | "mixed" => let r := vpMixed dx v c; pure (jQs [r.1, r.2])
-  | "curvature" => let r := vpCurvature dx v; pure (jQs [r.1, r.2.1, r.2.2])
-  | "periodic" => let r : Rat × Rat := vpPeriodic false; pure (jQs [r.1, r.2])
-  | "antiperiodic" => let r : Rat × Rat := vpPeriodic true; pure (jQs [r.1, r.2])
+  | "dirichlet" => pure (Json.mkObj [("index", near),
+      ("rows", rows (fun k => let r := vpDirichlet (v.getD k 0); [r.1, r.2]))])
+  | "neumann" => pure (Json.mkObj [("index", near),
+      ("rows", rows (fun k => let r := vpNeumann dx (v.getD k 0); [r.1, r.2]))])
+  | "mixed" => pure (Json.mkObj [("index", near),
+      ("rows", rows (fun k =>
+        let g : Coef Rat := match vinf with
+          | some fl => if fl.getD k 0 != 0 then .inf else .fin (v.getD k 0)
+          | none => .fin (v.getD k 0)
+        let r := vpMixedCode dx g (c.getD k 0); [r.1, r.2]))])
+  | "curvature" => pure (Json.mkObj [("index", near), ("index2", toJson (near2Idx N side - 1)),
+      ("rows", rows (fun k => let r := vpCurvature dx (v.getD k 0); [r.1, r.2.1, r.2.2]))])
+  | "periodic" => do
+      let r : Rat × Rat := vpPeriodic false
+      pure (Json.mkObj [("index", toJson (oppIdx N side - 1)), ("rows", Json.arr #[jQs [r.1, r.2]])])
+  | "antiperiodic" => do
+      let r : Rat × Rat := vpPeriodic true
+      pure (Json.mkObj [("index", toJson (oppIdx N side - 1)), ("rows", Json.arr #[jQs [r.1, r.2]])])
   | _ => throw s!"unknown kind {kind}"
 
 open PdeVerif.BCParse in
@@ -108,8 +185,24 @@ def kindName : Kind → String
   | .normalCurvature => "NormalCurvatureBC"
 
 open PdeVerif.BCParse in
+def parseOptSpec (j : Json) (k : String) : Except String (Option Spec) :=
+  match fldOpt j k with
+  | none => pure none
+  | some Json.null => pure none
+  | some s => do pure (some (← parseSpec s))
+
+open PdeVerif.BCParse in
+/-- a spec object, {"t":"lowhigh","lo":spec|null,"hi":spec|null,"extra":bool} or {"t":"seq","l":[spec..]} -/
+def parseEntry (j : Json) : Except String Entry := do
+  let t ← fldS j "t"
+  match t with
+  | "lowhigh" => do pure (.lowHigh (← parseOptSpec j "lo") (← parseOptSpec j "hi") (← fldB j "extra"))
+  | "seq" => do pure (.seq (← getL parseSpec (← fld j "l")))
+  | _ => do pure (.one (← parseSpec j))
+
+open PdeVerif.BCParse in
 /-- {"axes":[..], "alt":[[pattern, repl]..], "sides":[[name, axis, upper]..], "periodic":[..],
-    "top": {"all": spec} | {"dict": [[key, spec]..]}} -/
+    "top": {"all": spec} | {"lowhigh": entry} | {"dict": [[key, entry]..]} | {"list": [entry..]}} -/
 def parseH (j : Json) : Except String Json := do
   let axes ← (do getL getS (← fld j "axes"))
   let alt ← (do getL (fun p => do
@@ -119,11 +212,16 @@ def parseH (j : Json) : Except String Json := do
   let per ← (do getL getB (← fld j "periodic"))
   let g : GridNames := ⟨axes, alt, sides, per⟩
   let topJ ← fld j "top"
-  let top ← (match fldOpt topJ "all" with
-    | some s => do pure (Top.all (← parseSpec s))
-    | none => do
+  let top ← (match fldOpt topJ "all", fldOpt topJ "lowhigh", fldOpt topJ "list" with
+    | some s, _, _ => do pure (Top.all (← parseSpec s))
+    | none, some e, _ => do
+      match (← parseEntry e) with
+      | .lowHigh lo hi extra => pure (Top.lowHigh lo hi extra)
+      | _ => throw "top lowhigh expects a lowhigh entry"
+    | none, none, some l => do pure (Top.list (← getL parseEntry l))
+    | none, none, none => do
       let l ← getL (fun p => do
-        let a ← p.getArr?; pure ((← getS a[0]!), (← parseSpec a[1]!))) (← fld topJ "dict")
+        let a ← p.getArr?; pure ((← getS a[0]!), (← parseEntry a[1]!))) (← fld topJ "dict")
       pure (Top.dict l))
   match parse g top with
   | .error .bcdata => pure (Json.str "error:bcdata")
@@ -140,5 +238,5 @@ def aliases (_ : Json) : Except String Json :=
   pure (Json.arr (aliasTable.map (fun p => Json.arr #[Json.str p.1, Json.str (kindName p.2)])).toArray)
 
 def handlers : List (String × Handler) :=
-  [("c02.ghost", ghost), ("c02.vpdata", vpdata), ("c02.parse", parseH), ("c02.aliases", aliases)]
+  [("c02.ghost", ghost), ("c02.ghost2", ghost2), ("c02.vpdata", vpdata), ("c02.parse", parseH), ("c02.aliases", aliases)]
 end PdeVerif.Drv.C02
